@@ -12,6 +12,10 @@ ENGINES = [
      'kind_free_text': 'compile-time enumeration of all declared enumerators of an int8 enum (independent of the library tables)'},
     {'name': 'E5 unit-symbol oracle', 'path': 'engine/unit_oracle.py', 'serves_properties': ['C01', 'C06', 'C07', 'C08'],
      'kind_free_text': 'grammar + atom table (SI Brochure, NIST SP 811) expanding unit symbols to exact rational x pi^k magnitudes and dimension exponents'},
+    {'name': 'E2 relation discovery/generation', 'path': 'lib/rel.py + harness/rel_discover.hpp + harness/rel_check.hpp', 'serves_properties': ['C03', 'C04', 'C05', 'C18'],
+     'kind_free_text': 'compiler-driven discovery of every operator/constructor/member relation (detection idiom over type tuples) and generation of one checked call per relation and numeric type'},
+    {'name': 'instantiability sweep', 'path': 'lib/inst.py', 'serves_properties': ['C03', 'C04', 'C05'],
+     'kind_free_text': 'explicit instantiation of every class x numeric type; dead code vs per-type failures'},
     {'name': 'unit dump', 'path': 'harness/udump.cpp + lib/units.py', 'serves_properties': ['C01', 'C06', 'C07', 'C08'],
      'kind_free_text': 'runs the real lookup/convert code for every enumerator of the 39 enumeration types in forked children and records what it does'},
 ]
@@ -167,6 +171,40 @@ reg('C17', 'model_checking',
     'plus the static layout facts (sizeof, alignof, trivially copyable, standard layout, not polymorphic) and Zero() for every instance.',
     TB + 'State = bit pattern of the stored numbers (no hidden state is assumed: the sizeof fact checked alongside rules it out).',
     'explicit-state BFS with state hashing over operation histories of the real objects against an array reference model', 'DESIGN.md section 7 C17')
+
+reg('C03', 'exploration',
+    'Exhaustive over programs: the complete relation set is discovered by the compiler from the tree (all 92x93 operand pairs for the four '
+    'binary operators, all one-argument and two-argument constructor tuples, 3/4-argument constructors and member functions confirmed by '
+    'the detection idiom: 781 operators, 313 constructors, 183 members today) and every relation is checked in all 3 numeric types: '
+    'statically that the result type\'s dimension set is the sum/difference/same set, and dynamically that rescaling each of the seven '
+    'base units by 4 (and all at once) rescales the result by exactly the factor the result type predicts. Powers of 4 make the check '
+    'exact in binary floating point (0 ulp observed), so any wrong exponent shows as a factor >= 4.',
+    TB + 'Two-argument constructor tuples are pre-filtered to type names that occur in the class header (a constructor must name its parameter '
+    'types there); 3/4-argument constructors and members come from a text scan confirmed by the compiler. Operand values are a fixed alphabet.',
+    'exhaustive enumeration of compiler-discovered relations x unit rescalings (bounded exhaustive exploration over programs)', 'DESIGN.md section 7 C03')
+reg('C04', 'model_checking',
+    'Explicit-state model checking of compound-assignment histories on the real objects (BFS with state hashing over all discovered += -= '
+    '*= /= forms x 3 operand values, depth 4/5, 3.2e6 states, every transition compared bitwise with the pure-operator chain and with '
+    'plain-number arithmetic), plus an exhaustive sweep of every discovered operator instance x 3 numeric types compared bitwise with the '
+    'same operator on the stored values (operand order exposed by asymmetric full-mantissa values), every constructor/operator twin '
+    'compared bitwise, the std:: math overloads of every dimensionless scalar, and an explicit instantiation of every member of every '
+    'class for all three numeric types.',
+    TB + 'Harness and library are compiled in one TU with contraction off, so bitwise equality is the right oracle for "exactly".',
+    'explicit-state BFS over operation histories + exhaustive operator sweep against plain-number reference model', 'DESIGN.md section 7 C04')
+reg('C05', 'exploration',
+    'Exhaustive over programs: inverse pairs are derived mechanically from the compiler-discovered relation set (1495 pairs today: '
+    'constructor form for both operands, operator form where no constructor twin exists, one-argument pairs from the smaller shape) and '
+    'each composition g(f(a,b),b) is compared with a over a positive magnitude grid spanning 80 binades in 3 numeric types; the accepted '
+    'error is the implementation\'s own response to +-1,2,4 ulp moves of the intermediate and of b (perturbation oracle R3), floor 4 ulp.',
+    TB + 'Pairing is by signature (constructors) or by opposite operator; the tolerance uses the implementation as its own sensitivity probe, '
+    'so a defect that makes a relation wildly ill-conditioned in the same way in both directions would widen it.',
+    'exhaustive enumeration of derived inverse pairs x magnitude grid with perturbation oracle', 'DESIGN.md section 7 C05')
+reg('C18', 'exploration',
+    'Exhaustive over a fixed table of 68 textbook definitions in every direction the tree offers (existence probed at compile time), 3 '
+    'numeric types, magnitude grid over 80 binades with all arguments pairwise different, reference in __float128 with the textbook '
+    'constants, tolerance 4 ulp or the image of +-1,2,4 ulp input moves under the exact formula.',
+    TB + 'The formula table in harness/c18.cpp restates the textbook definitions named in the property.',
+    'exhaustive table x magnitude grid against __float128 textbook reference', 'DESIGN.md section 7 C18')
 
 PENDING = 'check not built yet in this session (planned, see DESIGN.md section 7); not a statement that model checking cannot apply'
 
